@@ -224,6 +224,17 @@ mut("terminal_column_wraps_at_64", ["C17", "C01", "C07"], [("kiki/src/data/table
 mut("emitted_goto_lookup_truncates_state_to_u8", ["C01", "C02", "C03"], [(T2R, """    {goto_table_name}[top_state as usize][new_node_kind as usize]""", """    {goto_table_name}[top_state as u8 as usize][new_node_kind as usize]""")],
     "the emitted GOTO lookup truncates the state to u8: only the compiled parser of a grammar with > 256 states shows it (tables and their text are right)")
 
+# length / position thresholds (reached only by the long names, attributes, comments and > 64 KiB leads of the text generators)
+mut("positions_wrap_at_16_bits", ["C08", "C09", "C10", "C16"], [(TOK, """            self.handle_char(c, ByteIndex(c_index))?;""", """            self.handle_char(c, ByteIndex(c_index as u16 as usize))?;""")],
+    "the tokenizer's character positions are truncated to 16 bits: needs a token or an error beyond byte 65 535")
+mut("identifier_length_capped_at_255", ["C08", "C09", "C13", "C06"], [(TOK, """        if current.is_ascii_alphanumeric() || current == '_' {
+            self.state = State::Ident(start, ByteIndex(end.0 + current.len_utf8()));
+            Ok(())""", """        if (current.is_ascii_alphanumeric() || current == '_') && end.0 - start.0 < 255 {
+            self.state = State::Ident(start, ByteIndex(end.0 + current.len_utf8()));
+            Ok(())""")], "identifiers are cut after 255 bytes (the rest becomes the next identifier)")
+mut("parse_error_text_capped_at_4096", ["C09"], [(ERRS, """    let content = src[start.0..end.0].to_string();""", """    let content = src[start.0..end.0].chars().take(4096).collect::<String>();""")],
+    "the source text reported with a parse error is cut after 4096 characters: needs an offending attribute longer than that")
+
 def main():
     a = sys.argv[1:]
     if not a or a[0] == "list":
